@@ -436,9 +436,39 @@ func (p *prop) runFault(c core.Case, w *core.Worker, res *core.Result, sc scenar
 		}
 	}
 	treeOracle(add, ps, before, after, m, nil, false, false, tol)
+	allArgs := specgen.Args{Entrypoint: []string{"./a", "./c"}, OutputFileBaseName: base, All: true}
+	// a FAILED generation right after the death, in the package where the dead process left a half-written temporary
+	// file: Execute must still return the error (naming generator and package) and must not rewrite gengo.sum
+	// (seeded change C02-m: cleaning up the leftover file overwrote the package's error with nil)
+	if inWrite {
+		left := map[string]bool{}
+		for pth := range after {
+			bn := filepath.Base(pth)
+			if strings.HasPrefix(bn, base+".") && !strings.HasSuffix(bn, ".go") {
+				left[filepath.Dir(pth)] = true
+			}
+		}
+		for _, pk := range ps {
+			if !left[pk.Dir] {
+				continue
+			}
+			sum0, sumErr0 := os.ReadFile(filepath.Join(m.Root, "gengo.sum"))
+			fr := specgen.RunInProcess(m.Root, allArgs, gens(sc, fault{Kind: "type-error", Pkg: pk.Dir}, "v1"))
+			sum1, sumErr1 := os.ReadFile(filepath.Join(m.Root, "gengo.sum"))
+			res.Inc("failing_runs_over_leftover_temp_files")
+			if !fr.Failed {
+				add("error-returned", "a run whose generator fails in %s - where the dead process left a temporary file - returned no error", pk.Dir)
+			} else if !strings.Contains(fr.Err, "bad") || !strings.Contains(fr.Err, pathOf(pk.Dir)) {
+				add("error-names-generator-and-package", "after the death: error %q does not name generator `bad` and package %s", fr.Err, pathOf(pk.Dir))
+			}
+			if (sumErr0 != nil) != (sumErr1 != nil) || string(sum0) != string(sum1) {
+				add("sum-untouched", "gengo.sum was rewritten by a failed run over a leftover temporary file in %s", pk.Dir)
+			}
+			break
+		}
+	}
 	// follow-up runs
 	good := gens(sc, fault{}, "v1")
-	allArgs := specgen.Args{Entrypoint: []string{"./a", "./c"}, OutputFileBaseName: base, All: true}
 	follow := specgen.RunInProcess(m.Root, allArgs, good)
 	if follow.Failed {
 		if inWrite {
